@@ -148,3 +148,8 @@ PROPS['C06'] = {'assumptions': ['single writer; base-index resets are run on the
  'trusted': ['Go compiler/runtime and standard library (encoding/binary, time, hash/crc32) -- differentially tested, not verified',
              'Go memory model: data-race freedom is judged by the race detector on the harness binary (thorough tier), the model-level statement is '
              'C06_no_conflict_partial']}
+
+# C06: stress under the Go race detector (implementation only; bin/wh-race is built by check.py)
+PROPS["C06"]["race"] = True
+PROPS["C06"]["streams"] = PROPS["C06"]["streams"] + [S("race06", 3, 60, vm=(0, 0), timeout=3000)]
+PROPS["C06"]["rule"] = PROPS["C06"].get("rule", "") + "; race06 (implementation only): a copy of the harness built with the Go race detector runs one writer (appends with rotation over sealed segments written by an earlier process, entries above 64 KiB, head truncations, tail truncations + re-appends) against three readers on a memory-backed real directory; oracles: no data race report, GetLog returns the entry asked for with intact self-describing payload, an entry returned earlier stays intact under later reads, no error for an entry no truncation overlapped"
